@@ -243,6 +243,31 @@ type buildVariant struct {
 }
 
 // oneBuild runs a single build variant on a fresh store.
+// buildDecoys: unrelated builds into scratch stores (their results are not looked at)
+func buildDecoys(bc *BuildCase) {
+	guard(func() {
+		u := mineUniverse(8, "plain")
+		for _, f := range []int{1024, 256, 16} {
+			dst := NewStore()
+			tg := putTargets(dst)
+			ids := []int{1, 2, 3, 4, 5, 6, 7, 8}
+			lk := make([]int, len(ids))
+			for i, id := range ids {
+				lk[i] = id % nTargets
+			}
+			buildDir(dst, &DirCase{Builder: "sharded", Fanout: f, Universe: u, Entries: ids, Links: lk}, tg)
+		}
+		n := bc.Len
+		if n <= 0 || n > 1<<21 {
+			n = 4099
+		}
+		for _, ch := range []string{"size-1000", "", "size-4096"} {
+			dst := NewStore()
+			builder.BuildUnixFSFile(bytes.NewReader(makeContent("random", n, 99)), ch, dst.LinkSystem())
+		}
+	})
+}
+
 func oneBuild(bc *BuildCase, v buildVariant, cc *caseClasses, content []byte, treeDir string) (M, *Store, cid.Cid) {
 	st := v.st
 	if st == nil || v.swap {
@@ -504,6 +529,12 @@ func runBuildCase(bc *BuildCase, tr *Tr) error {
 		e3["produced"], e3["clean"] = produced, false
 		summarizeBig(e3)
 		tr.Emit(e3)
+	}
+	if bc.Repeat > 0 && len(bc.Universe) < 5000 {
+		// the same input once more after unrelated builds in the same process: a sharded directory of a wider and of a
+		// narrower fanout, and a look-alike file (same length, other chunk boundaries)
+		buildDecoys(bc)
+		emit(buildVariant{input: 1, order: bc.Entries, tag: "after-decoys"})
 	}
 	if bc.Repeat > 0 && len(bc.Universe) < 5000 && bc.What != "quicktree" {
 		// several builders of the same input at once, through one LinkSystem into one store (a parallel importer): every
@@ -1139,17 +1170,26 @@ func init() {
 			// below it, the default size and one above it; content-defined chunkers on content that never cuts (chunks of the
 			// maximum size) and on random content
 			for i, ch := range []string{"size-1048576", "size-1048575", "size-262144", "size-262145", "default", "",
-				"rabin-262144-524288-1048576", "rabin-16-1048575-1048576", "rabin", "buzhash", "size-1"} {
+				"rabin-262144-524288-1048576", "rabin-16-1048575-1048576", "rabin", "buzhash", "size-1", "rabin-4096", "rabin-65536", "rabin-262144"} {
 				for _, content := range []string{"random", "repeat"} {
 					L := 5*(1<<19) + 5
 					if ch == "size-1" {
 						L = 1000
 					}
 					bc := &BuildCase{Fam: "build", ID: fmt.Sprintf("chunker-%q-%s", ch, content), What: "file", Len: L, Chunker: ch, W: []int{174, 2}[i%2],
-						Content: content, Seed: int64(i + 1), Ref: true}
+						Content: content, Seed: int64(i + 1), Ref: true, Repeat: map[bool]int{true: 1}[i%3 == 0]}
 					if err := runBuildCase(bc, tr); err != nil {
 						return err
 					}
+				}
+			}
+			// sparse-looking files: data and all-zero runs alternate, the last run is a short all-zero one
+			for i, kl := range [][3]int{{4096, 4096*3 + 1536, 0}, {4096, 4096*5 + 1, 0}, {262144, 262144*3 + 1000, 1}, {1000, 3500, 2}, {4096, 4096 * 4, 0}} {
+				ch := []string{fmt.Sprintf("size-%d", kl[0]), "", "size-1000"}[kl[2]]
+				bc := &BuildCase{Fam: "build", ID: fmt.Sprintf("holes-%d-%d", kl[0], kl[1]), What: "file", Len: kl[1], Chunker: ch, W: []int{174, 2, 3}[i%3],
+					Content: fmt.Sprintf("holes:%d", kl[0]), Seed: int64(i + 1), Ref: true, Repeat: 1}
+				if err := runBuildCase(bc, tr); err != nil {
+					return err
 				}
 			}
 		case "wide":
